@@ -27,7 +27,11 @@
    certificate entry given to DelegatedCredential.verify) changes the table.
    Re-synchronised with /repo 19b1cb2: _ticket_to_session's session.create now takes the SRP user name
    from the ticket payload (identity flowing through TLS <= 1.2 tickets -> flow server12_resume and
-   theorem srp_user_from_ticket_only_if_ticket_and_finished). *)
+   theorem srp_user_from_ticket_only_if_ticket_and_finished).
+   Normalised (round 3, to survive behaviour-preserving rewrites): local names bound exactly once to a
+   pure alias expression are replaced by that expression in all texts (and vanish from the provenance);
+   else-guards are in negation normal form; in keyexchange.py / x509.py / handshakehelpers.py a branch
+   ending in return / raise guards the statements after the `if`; provenance bindings are a sorted set. *)
 From Coq Require Import List String.
 Import ListNotations.
 Open Scope string_scope.
@@ -68,25 +72,25 @@ Definition expected_sites : list (string * string * string * string * string * s
    "serverCertChain = result",
    "not sr_psk", "-");
   ("tlsconnection.py", "TLSConnection._clientTLS13Handshake", "check",
-   "cert_ext.delegated_credential.verify(cert_entry, clientHello, certificate_verify) {cert_entry<-certificate.certificate_list[0]; certificate_verify<-result; cert_ext<-None | ext}",
+   "cert_ext.delegated_credential.verify(certificate.certificate_list[0], clientHello, certificate_verify) {certificate_verify<-result; cert_ext<-None | ext; certificate<-None | result}",
    "not sr_psk && cert_ext", "raise:TLSDecryptionFailed");
   ("tlsconnection.py", "TLSConnection._clientTLS13Handshake", "assign",
    "delegated_credential = cert_ext.delegated_credential",
    "not sr_psk && cert_ext", "-");
   ("tlsconnection.py", "TLSConnection._clientTLS13Handshake", "compare",
    "signature_scheme not in offered_ext.sigalgs",
-   "not sr_psk && not(cert_ext)", "alert:illegal_parameter");
+   "not sr_psk && not cert_ext", "alert:illegal_parameter");
   ("tlsconnection.py", "TLSConnection._clientTLS13Handshake", "check",
-   "method(certificate_verify.signature, signature_context, pad_type, hash_name, salt_len) {method<-publicKey.hashAndVerify | publicKey.verify; signature_context<-KeyExchange.calcVerifyBytes((3, 4), srv_cert_verify_hh, s...; pad_type<-None | SignatureScheme.getPadding(scheme); hash_name<-'intrinsic' | HashAlgorithm.toRepr(signature_scheme[0]) | SignatureScheme.getHash(scheme); salt_len<-None | getattr(hashlib, hash_name)().digest_size; certificate_verify<-result; publicKey<-result | delegated_credential.cred.pub_key}",
+   "method(certificate_verify.signature, signature_context, pad_type, hash_name, salt_len) {method<-publicKey.hashAndVerify | publicKey.verify; signature_context<-KeyExchange.calcVerifyBytes((3, 4), srv_cert_verify_hh, s...; pad_type<-None | SignatureScheme.getPadding(scheme); hash_name<-'intrinsic' | HashAlgorithm.toRepr(signature_scheme[0]) | SignatureScheme.getHash(scheme); salt_len<-None | getattr(hashlib, hash_name)().digest_size; certificate_verify<-result; publicKey<-delegated_credential.cred.pub_key | result}",
    "not sr_psk", "raise:TLSDecryptionFailed");
   ("tlsconnection.py", "TLSConnection._clientTLS13Handshake", "compare",
    "finished.verify_data != verify_data",
    "", "raise:TLSDecryptionFailed");
   ("tlsconnection.py", "TLSConnection._clientTLS13Handshake", "check",
-   "KeyExchange.calcVerifyBytes((3, 4), self._handshake_hash, signature_scheme, None, None, None, prfName, b'client') {signature_scheme<-certificate_verify.signatureAlgorithm | delegated_credential.cred.dc_cert_verify_algorithm | getFirstMatching(availSigAlgs, valid_sig_algs) | getattr(SignatureScheme, scheme); prfName<-self._getPRFParams(serverHello.cipher_suite)}",
+   "KeyExchange.calcVerifyBytes((3, 4), self._handshake_hash, signature_scheme, None, None, None, prfName, b'client') {signature_scheme<-certificate_verify.signatureAlgorithm | delegated_credential.cred.dc_cert_verify_algorithm | getFirstMatching(availSigAlgs, certificate_request.suppor... | getattr(SignatureScheme, scheme); prfName<-self._getPRFParams(serverHello.cipher_suite)}",
    "certificate_request && clientCertChain and privateKey", "-");
   ("tlsconnection.py", "TLSConnection._clientTLS13Handshake", "check",
-   "ver_func(signature, signature_context, pad_type, hash_name, salt_len) {ver_func<-privateKey.hashAndVerify | privateKey.verify; signature<-sig_func(signature_context, pad_type, hash_name, salt_len); signature_context<-KeyExchange.calcVerifyBytes((3, 4), srv_cert_verify_hh, s... | KeyExchange.calcVerifyBytes((3, 4), self._handshake_hash,...; pad_type<-None | SignatureScheme.getPadding(scheme); hash_name<-'intrinsic' | HashAlgorithm.toRepr(signature_scheme[0]) | SignatureScheme.getHash(scheme); salt_len<-None | getattr(hashlib, hash_name)().digest_size}",
+   "ver_func(signature, signature_context, pad_type, hash_name, salt_len) {ver_func<-privateKey.hashAndVerify | privateKey.verify; signature<-sig_func(signature_context, pad_type, hash_name, salt_len); signature_context<-KeyExchange.calcVerifyBytes((3, 4), self._handshake_hash,... | KeyExchange.calcVerifyBytes((3, 4), srv_cert_verify_hh, s...; pad_type<-None | SignatureScheme.getPadding(scheme); hash_name<-'intrinsic' | HashAlgorithm.toRepr(signature_scheme[0]) | SignatureScheme.getHash(scheme); salt_len<-None | getattr(hashlib, hash_name)().digest_size}",
    "certificate_request && clientCertChain and privateKey", "alert:internal_error");
   ("tlsconnection.py", "TLSConnection._clientTLS13Handshake", "create",
    "self.session.create(srp=None, client=clientCertChain, server=certificate.cert_chain if certificate else None, delegated_credential=delegated_credential)",
@@ -101,11 +105,11 @@ Definition expected_sites : list (string * string * string * string * string * s
    "serverCertChain = result",
    "cipherSuite in CipherSuite.certAllSuites or cipherSuite in CipherSuite.ecdheEcdsaSuites...", "-");
   ("tlsconnection.py", "TLSConnection._clientKeyExchange", "check",
-   "KeyExchange.verifyServerKeyExchange(serverKeyExchange, publicKey, clientRandom, serverRandom, valid_sig_algs) {serverKeyExchange<-result | None; publicKey<-None | result; valid_sig_algs<-self._sigHashesToList(settings, certList=serverCertChain)}",
+   "KeyExchange.verifyServerKeyExchange(serverKeyExchange, publicKey, clientRandom, serverRandom, valid_sig_algs) {serverKeyExchange<-None | result; publicKey<-None | result; valid_sig_algs<-self._sigHashesToList(settings, certList=serverCertChain)}",
    "cipherSuite in CipherSuite.certAllSuites or cipherSuite in CipherSuite.ecdheEcdsaSuites... && serverKeyExchange", "-|except TLSIllegalParameterException->alert:illegal_parameter;TLSDecryptionFailed->alert:decrypt_error");
   ("tlsconnection.py", "TLSConnection._clientKeyExchange", "assign",
    "clientCertChain = None",
-   "not(certificateRequest)", "-");
+   "not certificateRequest", "-");
   ("tlsconnection.py", "TLSConnection._clientFinished", "check",
    "self._getFinished(masterSecret, cipherSuite, nextProto=nextProto, expect_new_session_ticket=expect_new_session_ticket) {masterSecret<-self._calculate_master_secret(premasterSecret, cipherSuit...}",
    "", "-");
@@ -114,13 +118,13 @@ Definition expected_sites : list (string * string * string * string * string * s
    "", "-");
   ("tlsconnection.py", "TLSConnection._handshakeServerAsyncHelper", "assign",
    "clientCertChain = result",
-   "not(cipherSuite in CipherSuite.srpAllSuites) && cipherSuite in CipherSuite.certSuites or cipherSuite in CipherSuite.dheCertSuites or ci...", "-");
+   "cipherSuite not in CipherSuite.srpAllSuites && cipherSuite in CipherSuite.certSuites or cipherSuite in CipherSuite.dheCertSuites or ci...", "-");
   ("tlsconnection.py", "TLSConnection._handshakeServerAsyncHelper", "assign",
    "serverCertChain = cert_chain",
    "cipherSuite in CipherSuite.certAllSuites or cipherSuite in CipherSuite.ecdheEcdsaSuites", "-");
   ("tlsconnection.py", "TLSConnection._handshakeServerAsyncHelper", "assign",
    "serverCertChain = None",
-   "not(cipherSuite in CipherSuite.certAllSuites or cipherSuite in CipherSuite.ecdheEcdsaSuites)", "-");
+   "not (cipherSuite in CipherSuite.certAllSuites or cipherSuite in CipherSuite.ecdheEcdsaSuites)", "-");
   ("tlsconnection.py", "TLSConnection._handshakeServerAsyncHelper", "assign",
    "srpUsername = None",
    "", "-");
@@ -137,7 +141,7 @@ Definition expected_sites : list (string * string * string * string * string * s
    "resumed_client_cert_chain = ticket.client_cert_chain",
    "psks and (PskKeyExchangeMode.psk_dhe_ke in psk_types.modes or PskKeyExchangeMode.psk_ke... && loop (i, ident) && ticket", "-");
   ("tlsconnection.py", "TLSConnection._serverTLS13Handshake", "check",
-   "HandshakeHelpers.verify_binder(clientHello, self._pre_client_hello_handshake_hash, selected_psk, psk, psk_hash, external) {selected_psk<-None | i; psk<-None | match[0][1]; psk_hash<-match[0][2] if len(match[0]) > 2 else 'sha256'; external<-True | False}",
+   "HandshakeHelpers.verify_binder(clientHello, self._pre_client_hello_handshake_hash, selected_psk, psk, psk_hash, external) {selected_psk<-None | i; psk<-None | match[0][1]; psk_hash<-match[0][2] if len(match[0]) > 2 else 'sha256'; external<-False | True}",
    "psks and (PskKeyExchangeMode.psk_dhe_ke in psk_types.modes or PskKeyExchangeMode.psk_ke... && loop (i, ident)", "-|except TLSIllegalParameterException->alert:illegal_parameter");
   ("tlsconnection.py", "TLSConnection._serverTLS13Handshake", "assign",
    "delegated_credential = None",
@@ -164,10 +168,10 @@ Definition expected_sites : list (string * string * string * string * string * s
    "signature_scheme not in valid_sig_algs",
    "client_cert_chain and client_cert_chain.getNumCerts()", "alert:illegal_parameter");
   ("tlsconnection.py", "TLSConnection._serverTLS13Handshake", "check",
-   "KeyExchange.calcVerifyBytes((3, 4), cli_cert_verify_hh, signature_scheme, None, None, None, prf_name, b'client') {cli_cert_verify_hh<-self._handshake_hash.copy(); signature_scheme<-dc_sig_scheme | getattr(SignatureScheme, scheme) | certificate_verify.signatureAlgorithm; prf_name<-self._getPRFParams(cipherSuite)}",
+   "KeyExchange.calcVerifyBytes((3, 4), cli_cert_verify_hh, signature_scheme, None, None, None, prf_name, b'client') {cli_cert_verify_hh<-self._handshake_hash.copy(); signature_scheme<-certificate_verify.signatureAlgorithm | dc_sig_scheme | getattr(SignatureScheme, scheme); prf_name<-self._getPRFParams(cipherSuite)}",
    "client_cert_chain and client_cert_chain.getNumCerts()", "-");
   ("tlsconnection.py", "TLSConnection._serverTLS13Handshake", "check",
-   "ver_func(certificate_verify.signature, signature_context, pad_type, hash_name, salt_len) {ver_func<-privateKey.hashAndVerify | privateKey.verify | public_key.hashAndVerify | public_key.verify; signature_context<-KeyExchange.calcVerifyBytes((3, 4), self._handshake_hash,... | KeyExchange.calcVerifyBytes((3, 4), cli_cert_verify_hh, s...; pad_type<-None | SignatureScheme.getPadding(scheme); hash_name<-'intrinsic' | HashAlgorithm.toRepr(signature_scheme[0]) | SignatureScheme.getHash(scheme); salt_len<-None | getattr(hashlib, hash_name)().digest_size; certificate_verify<-CertificateVerify(self.version) | result; privateKey<-dc_key; public_key<-result}",
+   "ver_func(certificate_verify.signature, signature_context, pad_type, hash_name, salt_len) {ver_func<-privateKey.hashAndVerify | privateKey.verify | public_key.hashAndVerify | public_key.verify; signature_context<-KeyExchange.calcVerifyBytes((3, 4), cli_cert_verify_hh, s... | KeyExchange.calcVerifyBytes((3, 4), self._handshake_hash,...; pad_type<-None | SignatureScheme.getPadding(scheme); hash_name<-'intrinsic' | HashAlgorithm.toRepr(signature_scheme[0]) | SignatureScheme.getHash(scheme); salt_len<-None | getattr(hashlib, hash_name)().digest_size; certificate_verify<-CertificateVerify(self.version) | result; privateKey<-dc_key; public_key<-result}",
    "client_cert_chain and client_cert_chain.getNumCerts()", "alert:decrypt_error");
   ("tlsconnection.py", "TLSConnection._serverTLS13Handshake", "compare",
    "cl_finished.verify_data != cl_verify_data",
@@ -182,14 +186,14 @@ Definition expected_sites : list (string * string * string * string * string * s
    "session.create(srp=ticket.srp_username.decode('utf-8') if ticket.srp_username else '', client=ticket.client_cert_chain, server=None)",
    "", "-");
   ("tlsconnection.py", "TLSConnection._serverGetClientHello", "check",
-   "self._getFinished(session.masterSecret, session.cipherSuite) {session<-None | self._ticket_to_session(settings, ticket_ext) | cached | sessionCache[clientHello.session_id]}",
+   "self._getFinished(session.masterSecret, session.cipherSuite) {session<-None | cached | self._ticket_to_session(settings, ticket_ext) | sessionCache[clientHello.session_id]}",
    "clientHello.session_id and sessionCache or (ticket_ext and ticket_ext.ticket) && session", "-");
   ("tlsconnection.py", "TLSConnection._server_select_certificate", "compare",
    "client_sigalgs is not None",
    "", "continue");
   ("tlsconnection.py", "TLSConnection._server_select_certificate", "compare",
    "client_sigalgs is not None",
-   "not(client_sigalgs is not None)", "continue");
+   "client_sigalgs is None", "continue");
   ("tlsconnection.py", "TLSConnection._server_select_certificate", "compare",
    "cert.x509List[i].sigalg not in client_sigalgs",
    "loop (cert, key) && cert && loop i && cert.x509List[i].issuer != cert.x509List[i].subject", "continue");
@@ -198,18 +202,18 @@ Definition expected_sites : list (string * string * string * string * string * s
    "", "-");
   ("tlsconnection.py", "TLSConnection._serverCertKeyExchange", "assign",
    "clientCertChain = clientCertificate.cert_chain",
-   "reqCert && self.version == (3, 0) && not(isinstance(msg, Alert)) && isinstance(msg, Certificate) && clientCertificate.cert_chain and clientCertificate.cert_chain.getNumCerts() != 0", "-");
+   "reqCert && self.version == (3, 0) && not isinstance(msg, Alert) && isinstance(msg, Certificate) && clientCertificate.cert_chain and clientCertificate.cert_chain.getNumCerts() != 0", "-");
   ("tlsconnection.py", "TLSConnection._serverCertKeyExchange", "assign",
    "clientCertChain = clientCertificate.cert_chain",
-   "reqCert && not(self.version == (3, 0)) && self.version in ((3, 1), (3, 2), (3, 3)) && clientCertificate.cert_chain and clientCertificate.cert_chain.getNumCerts() != 0", "-");
+   "reqCert && self.version != (3, 0) && self.version in ((3, 1), (3, 2), (3, 3)) && clientCertificate.cert_chain and clientCertificate.cert_chain.getNumCerts() != 0", "-");
   ("tlsconnection.py", "TLSConnection._serverCertKeyExchange", "compare",
    "certificateVerify.signatureAlgorithm not in valid_sig_algs",
    "clientCertChain && self.version == (3, 3)", "alert:illegal_parameter");
   ("tlsconnection.py", "TLSConnection._serverCertKeyExchange", "check",
-   "KeyExchange.calcVerifyBytes(self.version, cvhh, signatureAlgorithm, premasterSecret, clientHello.random, serverHello.random, key_type=clientCertCha... {cvhh<-self._certificate_verify_handshake_hash; signatureAlgorithm<-None | certificateVerify.signatureAlgorithm | (HashAlgorithm.sha1, SignatureAlgorithm.ecdsa); premasterSecret<-keyExchange.processClientKeyExchange(clientKeyExchange); clientCertChain<-None | clientCertificate.cert_chain}",
+   "KeyExchange.calcVerifyBytes(self.version, cvhh, signatureAlgorithm, premasterSecret, clientHello.random, serverHello.random, key_type=clientCertCha... {cvhh<-self._certificate_verify_handshake_hash; signatureAlgorithm<-(HashAlgorithm.sha1, SignatureAlgorithm.ecdsa) | None | certificateVerify.signatureAlgorithm; premasterSecret<-keyExchange.processClientKeyExchange(clientKeyExchange); clientCertChain<-None | clientCertificate.cert_chain}",
    "clientCertChain", "-");
   ("tlsconnection.py", "TLSConnection._serverCertKeyExchange", "check",
-   "ver_func(certificateVerify.signature, verify_bytes, padding, hash_name, salt_len) {ver_func<-public_key.hashAndVerify | public_key.verify; verify_bytes<-KeyExchange.calcVerifyBytes(self.version, cvhh, signature... | verify_bytes[:public_key.public_key.curve.baselen]; padding<-None | 'pkcs1' | SignatureScheme.getPadding(scheme); hash_name<-'intrinsic' | HashAlgorithm.toRepr(signatureAlgorithm[0]) | None | SignatureScheme.getHash(scheme) | HashAlgorithm.toStr(signatureAlgorithm[0]); salt_len<-None | 0 | getattr(hashlib, hash_name)().digest_size; certificateVerify<-result; public_key<-result}",
+   "ver_func(certificateVerify.signature, verify_bytes, padding, hash_name, salt_len) {ver_func<-public_key.hashAndVerify | public_key.verify; verify_bytes<-KeyExchange.calcVerifyBytes(self.version, cvhh, signature... | verify_bytes[:public_key.public_key.curve.baselen]; padding<-'pkcs1' | None | SignatureScheme.getPadding(scheme); hash_name<-'intrinsic' | HashAlgorithm.toRepr(signatureAlgorithm[0]) | HashAlgorithm.toStr(signatureAlgorithm[0]) | None | SignatureScheme.getHash(scheme); salt_len<-0 | None | getattr(hashlib, hash_name)().digest_size; certificateVerify<-result; public_key<-result}",
    "clientCertChain", "alert:decrypt_error");
   ("tlsconnection.py", "TLSConnection._serverFinished", "check",
    "self._getFinished(masterSecret, cipherSuite, expect_next_protocol=nextProtos is not None) {masterSecret<-self._calculate_master_secret(premasterSecret, cipherSuit...}",
@@ -227,13 +231,13 @@ Definition expected_sites : list (string * string * string * string * string * s
    "schemeID in hashAndAlgsExt.sigalgs",
    "loop (certs, key) && loop schemeID", "continue");
   ("tlsrecordlayer.py", "TLSRecordLayer._handle_pha", "check",
-   "KeyExchange.calcVerifyBytes((3, 4), handshake_context, sig_scheme, None, None, None, prf_name, b'client') {handshake_context<-self._first_handshake_hashes.copy(); sig_scheme<-getFirstMatching(avail_sig_algs, valid_sig_algs) | getattr(SignatureScheme, scheme); prf_name<-'sha256' | 'sha384'}",
+   "KeyExchange.calcVerifyBytes((3, 4), handshake_context, sig_scheme, None, None, None, prf_name, b'client') {handshake_context<-self._first_handshake_hashes.copy(); sig_scheme<-getFirstMatching(avail_sig_algs, cert_request.supported_s... | getattr(SignatureScheme, scheme); prf_name<-'sha256' | 'sha384'}",
    "cert.x509List and p_key", "-");
   ("tlsrecordlayer.py", "TLSRecordLayer._handle_pha", "check",
    "ver_func(signature, signature_context, pad_type, hash_name, salt_len) {ver_func<-p_key.hashAndVerify | p_key.verify; signature<-sig_func(signature_context, pad_type, hash_name, salt_len); signature_context<-KeyExchange.calcVerifyBytes((3, 4), handshake_context, si...; pad_type<-None | SignatureScheme.getPadding(scheme); hash_name<-'intrinsic' | HashAlgorithm.toRepr(sig_scheme[0]) | SignatureScheme.getHash(scheme); salt_len<-None | getattr(hashlib, hash_name)().digest_size; p_key<-self._client_keypair}",
    "cert.x509List and p_key", "alert:internal_error");
   ("tlsrecordlayer.py", "TLSRecordLayer._handle_srv_pha", "compare",
-   "cert_verify.signatureAlgorithm not in valid_sig_algs",
+   "cert_verify.signatureAlgorithm not in cr.supported_signature_algs",
    "cert.cert_chain", "alert:illegal_parameter");
   ("tlsrecordlayer.py", "TLSRecordLayer._handle_srv_pha", "compare",
    "cert_verify.signatureAlgorithm not in avail_sig_algs",
@@ -251,56 +255,56 @@ Definition expected_sites : list (string * string * string * string * string * s
    "self.session.clientCertChain = cert.cert_chain",
    "", "-");
   ("keyexchange.py", "KeyExchange._tls12_verify_ecdsa_SKE", "check",
-   "publicKey.verify(serverKeyExchange.signature, hashBytes, padding=None, hashAlg=hashName, saltLen=None) {hashBytes<-serverKeyExchange.hash(clientRandom, serverRandom) | hashBytes[:publicKey.public_key.curve.baselen]; hashName<-HashAlgorithm.toRepr(serverKeyExchange.hashAlg)}",
-   "", "raise:TLSDecryptionFailed");
+   "publicKey.verify(serverKeyExchange.signature, hashBytes, padding=None, hashAlg=hashName, saltLen=None) {hashBytes<-hashBytes[:publicKey.public_key.curve.baselen] | serverKeyExchange.hash(clientRandom, serverRandom); hashName<-HashAlgorithm.toRepr(serverKeyExchange.hashAlg)}",
+   "hashName", "raise:TLSDecryptionFailed");
   ("keyexchange.py", "KeyExchange._tls12_verify_eddsa_ske", "check",
-   "public_key.hashAndVerify(sig_bytes, hash_bytes) {sig_bytes<-server_key_exchange.signature; hash_bytes<-server_key_exchange.hash(client_random, server_random)}",
-   "", "raise:TLSDecryptionFailed");
+   "public_key.hashAndVerify(server_key_exchange.signature, hash_bytes) {hash_bytes<-server_key_exchange.hash(client_random, server_random)}",
+   "server_key_exchange.signature", "raise:TLSDecryptionFailed");
   ("keyexchange.py", "KeyExchange._tls12_verify_dsa_SKE", "check",
    "publicKey.verify(serverKeyExchange.signature, hashBytes) {hashBytes<-serverKeyExchange.hash(clientRandom, serverRandom)}",
    "", "raise:TLSDecryptionFailed");
   ("keyexchange.py", "KeyExchange._tls12_verify_SKE", "check",
    "KeyExchange._tls12_verify_eddsa_ske(serverKeyExchange, publicKey, clientRandom, serverRandom, validSigAlgs)",
-   "(serverKeyExchange.hashAlg, serverKeyExchange.signAlg) in (SignatureScheme.ed25519, Sig...", "-");
+   "(serverKeyExchange.hashAlg, serverKeyExchange.signAlg) in validSigAlgs && (serverKeyExchange.hashAlg, serverKeyExchange.signAlg) in (SignatureScheme.ed25519, Sig...", "-");
   ("keyexchange.py", "KeyExchange._tls12_verify_SKE", "check",
    "KeyExchange._tls12_verify_ecdsa_SKE(serverKeyExchange, publicKey, clientRandom, serverRandom, validSigAlgs)",
-   "serverKeyExchange.signAlg == SignatureAlgorithm.ecdsa", "-");
+   "(serverKeyExchange.hashAlg, serverKeyExchange.signAlg) in validSigAlgs && (serverKeyExchange.hashAlg, serverKeyExchange.signAlg) not in (SignatureScheme.ed25519, Signa... && serverKeyExchange.signAlg == SignatureAlgorithm.ecdsa", "-");
   ("keyexchange.py", "KeyExchange._tls12_verify_SKE", "check",
    "KeyExchange._tls12_verify_dsa_SKE(serverKeyExchange, publicKey, clientRandom, serverRandom, validSigAlgs)",
-   "not(serverKeyExchange.signAlg == SignatureAlgorithm.ecdsa) && serverKeyExchange.signAlg == SignatureAlgorithm.dsa", "-");
+   "(serverKeyExchange.hashAlg, serverKeyExchange.signAlg) in validSigAlgs && (serverKeyExchange.hashAlg, serverKeyExchange.signAlg) not in (SignatureScheme.ed25519, Signa... && serverKeyExchange.signAlg != SignatureAlgorithm.ecdsa && serverKeyExchange.signAlg == SignatureAlgorithm.dsa", "-");
   ("keyexchange.py", "KeyExchange._tls12_verify_SKE", "check",
-   "publicKey.verify(sigBytes, hashBytes, padding=padType, hashAlg=hashName, saltLen=saltLen) {sigBytes<-serverKeyExchange.signature; hashBytes<-serverKeyExchange.hash(clientRandom, serverRandom); padType<-SignatureScheme.getPadding(scheme) | 'pkcs1'; hashName<-SignatureScheme.getHash(scheme) | HashAlgorithm.toRepr(serverKeyExchange.hashAlg); saltLen<-getattr(hashlib, hashName)().digest_size | 0}",
-   "", "raise:TLSDecryptionFailed");
+   "publicKey.verify(serverKeyExchange.signature, hashBytes, padding=padType, hashAlg=hashName, saltLen=saltLen) {hashBytes<-serverKeyExchange.hash(clientRandom, serverRandom); padType<-'pkcs1' | SignatureScheme.getPadding(scheme); hashName<-HashAlgorithm.toRepr(serverKeyExchange.hashAlg) | SignatureScheme.getHash(scheme); saltLen<-0 | getattr(hashlib, hashName)().digest_size}",
+   "(serverKeyExchange.hashAlg, serverKeyExchange.signAlg) in validSigAlgs && (serverKeyExchange.hashAlg, serverKeyExchange.signAlg) not in (SignatureScheme.ed25519, Signa... && serverKeyExchange.signAlg != SignatureAlgorithm.ecdsa && serverKeyExchange.signAlg != SignatureAlgorithm.dsa && serverKeyExchange.signature", "raise:TLSDecryptionFailed");
   ("keyexchange.py", "KeyExchange.verifyServerKeyExchange", "check",
-   "publicKey.verify(sigBytes, hashBytes) {sigBytes<-serverKeyExchange.signature; hashBytes<-serverKeyExchange.hash(clientRandom, serverRandom)}",
-   "serverKeyExchange.version < (3, 3)", "raise:TLSDecryptionFailed");
+   "publicKey.verify(serverKeyExchange.signature, hashBytes) {hashBytes<-serverKeyExchange.hash(clientRandom, serverRandom)}",
+   "serverKeyExchange.version < (3, 3) && serverKeyExchange.signature", "raise:TLSDecryptionFailed");
   ("keyexchange.py", "KeyExchange.verifyServerKeyExchange", "check",
    "KeyExchange._tls12_verify_SKE(serverKeyExchange, publicKey, clientRandom, serverRandom, validSigAlgs)",
-   "not(serverKeyExchange.version < (3, 3))", "-");
+   "serverKeyExchange.version >= (3, 3)", "-");
   ("x509.py", "DelegatedCredential.verify", "compare",
    "self.cred.dc_cert_verify_algorithm not in dc_sig_list.sigalgs",
    "", "raise:TLSIllegalParameterException");
   ("x509.py", "DelegatedCredential.verify", "compare",
    "self.algorithm not in sig_list.sigalgs",
-   "", "raise:TLSIllegalParameterException");
+   "self.cred.dc_cert_verify_algorithm in dc_sig_list.sigalgs", "raise:TLSIllegalParameterException");
   ("x509.py", "DelegatedCredential.verify", "compare",
    "dc_cert_verify_algorithm != cert_verify.signatureAlgorithm",
-   "", "raise:TLSIllegalParameterException");
+   "self.cred.dc_cert_verify_algorithm in dc_sig_list.sigalgs && self.algorithm in sig_list.sigalgs", "raise:TLSIllegalParameterException");
   ("x509.py", "DelegatedCredential.verify", "check",
-   "DelegatedCredential.compute_certificate_dc_sig_context(certificate.bytes, self.cred.bytes, self.algorithm) {certificate<-certificate_entry.certificate}",
-   "", "-");
+   "DelegatedCredential.compute_certificate_dc_sig_context(certificate_entry.certificate.bytes, self.cred.bytes, self.algorithm)",
+   "self.cred.dc_cert_verify_algorithm in dc_sig_list.sigalgs && self.algorithm in sig_list.sigalgs && dc_cert_verify_algorithm == cert_verify.signatureAlgorithm", "-");
   ("x509.py", "DelegatedCredential.verify", "check",
-   "method(self.signature, sig_context, pad_type, hash_name, salt_len) {method<-cert_pub_key.hashAndVerify; sig_context<-DelegatedCredential.compute_certificate_dc_sig_context(ce...; pad_type<-None | SignatureScheme.getPadding(scheme); hash_name<-'intrinsic' | HashAlgorithm.toRepr(sig_scheme[0]) | SignatureScheme.getHash(scheme); salt_len<-None | getattr(hashlib, hash_name)().digest_size; cert_pub_key<-certificate.publicKey}",
-   "", "raise:TLSDecryptionFailed");
+   "method(self.signature, sig_context, pad_type, hash_name, salt_len) {method<-certificate_entry.certificate.publicKey.hashAndVerify; sig_context<-DelegatedCredential.compute_certificate_dc_sig_context(ce...; pad_type<-None | SignatureScheme.getPadding(scheme); hash_name<-'intrinsic' | HashAlgorithm.toRepr(sig_scheme[0]) | SignatureScheme.getHash(scheme); salt_len<-None | getattr(hashlib, hash_name)().digest_size}",
+   "self.cred.dc_cert_verify_algorithm in dc_sig_list.sigalgs && self.algorithm in sig_list.sigalgs && dc_cert_verify_algorithm == cert_verify.signatureAlgorithm", "raise:TLSDecryptionFailed");
   ("handshakehelpers.py", "HandshakeHelpers.update_binders", "check",
    "HandshakeHelpers._calc_binder(binder_hash, psk, hh, external) {binder_hash<-'sha256' if len(res_master_secret) == 32 else 'sha384' | config[2] if len(config) > 2 else 'sha256'; psk<-HandshakeHelpers.calc_res_binder_psk(iden, res_master_sec... | config[1]; hh<-handshake_hashes.copy(); external<-False | True}",
-   "loop (i, iden)", "-");
+   "isinstance(ext, PreSharedKeyExtension) && not (tickets and (not res_master_secret)) && loop (i, iden)", "-");
   ("handshakehelpers.py", "HandshakeHelpers.verify_binder", "check",
    "HandshakeHelpers._calc_binder(prf, secret, hh, external) {hh<-handshake_hashes.copy()}",
-   "", "-");
+   "isinstance(ext, PreSharedKeyExtension)", "-");
   ("handshakehelpers.py", "HandshakeHelpers.verify_binder", "check",
    "ct_compare_digest(binder, ext.binders[position]) {binder<-HandshakeHelpers._calc_binder(prf, secret, hh, external); ext<-client_hello.extensions[-1]}",
-   "", "raise:TLSIllegalParameterException")
+   "isinstance(ext, PreSharedKeyExtension)", "raise:TLSIllegalParameterException")
 ].
 
 
@@ -309,8 +313,10 @@ Definition row_eqb (a b : string * string * string * string * string * string) :
   let '(b1, b2, b3, b4, b5, b6) := b in
   (String.eqb a1 b1 && String.eqb a2 b2 && String.eqb a3 b3 && String.eqb a4 b4 && String.eqb a5 b5 && String.eqb a6 b6)%bool.
 
-(* the delegated-credential verification must receive entry 0 of the certificate list *)
+(* the delegated-credential verification must receive entry 0 of the certificate list (the local
+   cert_entry, bound exactly once, is shown as the expression it names; a second binding of it would
+   bring the name and both bindings back into the row) *)
 Definition dc_verify_row : string * string * string * string * string * string :=
   ("tlsconnection.py", "TLSConnection._clientTLS13Handshake", "check",
-   "cert_ext.delegated_credential.verify(cert_entry, clientHello, certificate_verify) {cert_entry<-certificate.certificate_list[0]; certificate_verify<-result; cert_ext<-None | ext}",
+   "cert_ext.delegated_credential.verify(certificate.certificate_list[0], clientHello, certificate_verify) {certificate_verify<-result; cert_ext<-None | ext; certificate<-None | result}",
    "not sr_psk && cert_ext", "raise:TLSDecryptionFailed").
